@@ -275,6 +275,30 @@ impl Trace {
         live
     }
 
+    /// Score of the state held after observation k, if all live hypotheses agree on it
+    /// (outer None = ambiguous; inner None = the held state has no score).
+    pub fn score_after(&self) -> Vec<Option<Option<f64>>> {
+        let live = self.live();
+        let mut out = Vec::with_capacity(self.steps.len());
+        for (k, st) in self.steps.iter().enumerate() {
+            let mut val: Option<Option<u64>> = None;
+            let mut ambiguous = !self.complete();
+            for (h, hyp) in st.hyps.iter().enumerate() {
+                if !live[k][h] {
+                    continue;
+                }
+                let b = hyp.score.map(|x| x.to_bits());
+                match val {
+                    None => val = Some(b),
+                    Some(v) if v == b => {}
+                    _ => ambiguous = true,
+                }
+            }
+            out.push(if ambiguous { None } else { val.map(|v| v.map(f64::from_bits)) });
+        }
+        out
+    }
+
     /// For every observation k: the set of live (parent score, accepted) labels; a step is
     /// *resolved* if exactly one label is live.
     pub fn resolved_steps(&self, x0_score: Option<f64>) -> Vec<Option<ResolvedStep>> {
